@@ -44,6 +44,10 @@ theorem di_parser_defaults_are_llvms : Generated.diParserDefaults = llvmTrueDefa
     there is no `spFlags`, which would take precedence) -/
 theorem di_other_conditions : Generated.diOtherConds.map (fun c => (c.1, c.2.1)) = [("DISubprogram", "isDefinition")] := by decide +kernel
 
+/-- every enum-valued field whose grammar also takes a NUMBER is printed through a helper that spells a value without a keyword as that number (the stringer form
+    `DwarfLang(200)` is not valid syntax); the one field printed directly is `checksumkind`, which the grammar reads as a keyword only -/
+theorem di_enum_fields_wrapped : Generated.diUnwrappedEnums = [("DIFile", "checksumkind")] := by decide +kernel
+
 /-- non-vacuity: `distinct !DIBasicType(name: "int", size: 32, encoding: DW_ATE_signed)` is a well-formed node of the regenerated table -/
 def diSample : Node := ⟨0, true, [(1, .str [105, 110, 116]), (2, .int 32), (4, .word [68, 87, 95, 65, 84, 69, 95, 115, 105, 103, 110, 101, 100])]⟩
 
